@@ -4,6 +4,7 @@ import math
 import uuid as _uuid
 from fractions import Fraction
 
+from .. import history
 from ..core import Op, jkey
 from ..rat import rat, frac
 
@@ -15,7 +16,9 @@ THEOREMS = [_T + n for n in [
     "C14_ids_distinct", "C14_rejects_nonpositive", "C14_default_hop", "C14_bound_irrelevant",
     "C14_holds_iff", "C14_pinned_bound_loses_windows",
     # review R-C14
-    "C14_count", "C14_bound_ge", "C14_name_injective", "C14_full", "C14_complete_tail"]]
+    "C14_count", "C14_bound_ge", "C14_name_injective", "C14_full", "C14_complete_tail",
+    # histories
+    "C14_history"]]
 LEVEL_TEXT = ("Lean theorems over a loop-level model of segment_clip (after fix C14-1: loop bound ceil(duration/hop)), for all "
               "rational clip bounds, durations, hops and both flags: the i-th segment is the lattice window start + i*hop "
               "truncated at the clip end; the result contains exactly the windows that fit (resp. start inside the clip); "
@@ -39,7 +42,11 @@ LEVEL_NOTE = ("Trusted: Lean kernel, the Python harness and symbolic tracer, the
 TECHNIQUE = ("Lean 4 proof over a loop-level model (induction on the loop bound); symbolic-trace equality obligations "
              "regenerated from the source with an oracle loop bound; exhaustive dyadic-grid correspondence with exact "
              "comparison; recomputed uuid5 names; float monitor in free mode")
-RULE = ("exhaustive dyadic grid of clip start/end x duration x hop (hop <, =, > duration; clip length exact and non-exact "
+RULE = ("histories (segment_history): 160 / 1600 sequences of 3-5 calls in one process - a case, neighbours of it (other flag / "
+        "hop / duration / clip end), the case again - on fresh clips and on the previous clip object changed by assignment, "
+        "model_copy(update) shallow and deep, deepcopy + assignment; arguments snapshotted around every call; returned "
+        "segments edited by the caller (poison) and earlier results re-read after later calls; every step judged by the "
+        "model alone (theorem C14_history).  exhaustive dyadic grid of clip start/end x duration x hop (hop <, =, > duration; clip length exact and non-exact "
         "multiples of the hop) x both flags, plus random dyadic cases (floats, ints, numpy float64), clip ends 2^-10..2^-40 "
         "off a lattice point or window end, hops of 2^-22, and decimal cases; non-trivial = the implementation "
         "yielded at least one segment; distinct = distinct (operation, input)")
@@ -262,6 +269,95 @@ OPS = {
     "id_classes": Op("id_classes", _impl_id_classes,
                      nontrivial=lambda i, o: any(isinstance(x, list) and x for x in o.get("val", []))),
 }
+
+
+# ------------------------------------------------------------------ histories (harness/history.py, HISTORIES.md)
+def _h_build(inp):
+    from soundevent import data
+    num = inp.get("num", "float")
+    clip = data.Clip(uuid=_uuid.UUID(PARENTS[0]), recording=_recording(), start_time=_f(inp["start"], num),
+                     end_time=_f(inp["end"], num))
+    return {"clip": clip, "kw": _h_kw(inp)}
+
+
+def _h_kw(inp):
+    num = inp.get("num", "float")
+    kw = {"duration": _f(inp["duration"], num), "include_incomplete": inp["incl"]}
+    if inp.get("hop") is not None:
+        kw["hop"] = _f(inp["hop"], num)
+    return kw
+
+
+def _h_call(args):
+    from soundevent.operations import segment_clip
+    return list(segment_clip(args["clip"], **args["kw"]))
+
+
+def _h_canon(inp, args, res):
+    return {"val": [[rat(x.start_time), rat(x.end_time)] for x in res]}
+
+
+def _h_snapshot(args):
+    c = args["clip"]
+    return [rat(c.start_time), rat(c.end_time), str(c.uuid), id(c.recording), jkey(args["kw"])]
+
+
+def _h_modify(args, inp, how):
+    """the clip object of the previous step, changed to the bounds of this step: by assignment, by
+    model_copy(update=...) or by a (deep) copy that is then assigned to - nothing the clip remembered from its
+    earlier use may survive the change (Clip is not frozen)"""
+    import copy
+    num = inp.get("num", "float")
+    clip, s, e = args["clip"], _f(inp["start"], num), _f(inp["end"], num)
+    if how == "assign":
+        if e >= clip.start_time:
+            clip.end_time, clip.start_time = e, s
+        else:
+            clip.start_time, clip.end_time = s, e
+    elif how == "copy_update":
+        clip = clip.model_copy(update={"start_time": s, "end_time": e})
+    elif how == "deep_copy_update":
+        clip = clip.model_copy(update={"start_time": s, "end_time": e}, deep=True)
+    elif how == "deepcopy_assign":
+        clip = copy.deepcopy(clip)
+        clip.start_time, clip.end_time = min(s, clip.start_time), e
+        clip.start_time = s
+    else:
+        return None
+    return {"clip": clip, "kw": _h_kw(inp)}
+
+
+def _h_poison(res):
+    """the caller edits what it got back (a returned segment is the caller's): nothing may be shared with later calls"""
+    if not res:
+        return False
+    res[0].end_time = res[0].end_time + 1000.0
+    res.append(res[0])
+    return True
+
+
+H_REUSE = ("assign", "copy_update", "deep_copy_update", "deepcopy_assign")
+
+
+def _h_variants(x, rng):
+    """neighbours of a case: the same clip with another flag / hop / duration, and a longer or shifted clip"""
+    out = []
+    out.append({**x, "incl": not x["incl"]})
+    d = frac(x["duration"])
+    if d > 0:
+        out.append({**x, "hop": rat(d * rng.choice([Fraction(1, 2), 2, 3]))})
+        out.append({**x, "duration": rat(d * rng.choice([Fraction(1, 2), 2]))})
+    e, s0 = frac(x["end"]), frac(x["start"])
+    out.append({**x, "end": rat(e + rng.choice([1, 3, Fraction(5, 2), 10]))})
+    if e - s0 > 1:
+        out.append({**x, "end": rat(e - 1)})
+    out.append({**x, "start": rat(s0 + Fraction(1, 2)), "end": rat(e + Fraction(1, 2))})
+    return [v for v in out if frac(v["start"]) <= frac(v["end"])]
+
+
+OPS["segment_history"] = history.history_op(
+    "segment_history", Op("segment", None, nontrivial=_nontrivial), _h_build, _h_call, _h_canon,
+    snapshot=_h_snapshot, modify=_h_modify, poison=_h_poison)
 
 
 # ------------------------------------------------------------------ generators
@@ -526,6 +622,19 @@ def _symbolic_ties(ctx):
     c14_sym.register(ctx, ops, _namespace(), _recording(), [0, 1, 2, 3, 4] if ctx.thorough() else [0, 1, 2, 3])
 
 
+def _stage_histories(ctx):
+    """consecutive calls in one process: the same clip with other options, a clip object that is changed and
+    used again (assignment / model_copy), results edited by the caller, results compared after later calls"""
+    rng = ctx.rng
+    base = [c for c in _random_dyadic(rng, ctx.budget(120, 1200))]
+    base += [_case(0, 10, 3, 2, True), _case(0, 9, 2, 2, False), _case(4, 14, 2, None, False), _case(2, 5, 4, 1, True)]
+    hs = history.sequences(rng, base, ctx.budget(160, 1600), variants=_h_variants, reuse_hows=H_REUSE, poison=True)
+    for h in hs:
+        for st in h["seq"]:
+            ctx.tally("history:" + (st.get("reuse") or "fresh") + ("+poison" if st.get("poison") else ""))
+    ctx.run_cases(OPS["segment_history"], hs)
+
+
 def run(ctx):
     ctx.stage("symbolic-ties", _symbolic_ties, ctx)
     ctx.stage("discharge", ctx.discharge, ["SoundeventModel.Segment", "SoundeventModel.Tactics"])
@@ -533,6 +642,7 @@ def run(ctx):
     ctx.stage("exhaustive-grid", _stage_grid, ctx)
     ctx.stage("random-dyadic", _stage_random, ctx)
     ctx.stage("identifier-keys", _stage_ids, ctx)
+    ctx.stage("histories", _stage_histories, ctx)
     ctx.stage("free-mode-monitor", _stage_free, ctx)
 
 
